@@ -303,6 +303,10 @@ func (c *Ctx) finish(spec *propSpec, tier string, seed int, start time.Time, ext
 	for k, v := range extra {
 		cov[k] = v
 	}
+	if len(c.P.Canon) > 0 {
+		cov["canonicalised"] = c.P.Canon
+		fmt.Printf("NOTE %s: %d renamed identifier(s) analysed under their reference names (see evidence 'canonicalised')\n", c.Prop, len(c.P.Canon))
+	}
 	if spec.Assumptions == nil {
 		spec.Assumptions = []string{}
 	}
